@@ -381,11 +381,15 @@ def run_corpus(shard):
                                      '[H]NC', '[H]C([H])C', '[H][NH2+]C', '[H]OC([H])C', '[2H]NC', 'CN12CC(=O)OB1(c1ccccc1)OC(=O)C2', 'C1=N2CCCB2CC1', 'CN1CCO[B-]1(C)C', 'C1CC[N+]2(C1)CCC[B-]2(F)F',
                                      # unbalanced acid/base counts (more cationic acids than anionic bases and the converse)
                                      '[NH3+]CCCC[C@H]([NH3+])C([O-])=O', 'NC(=[NH2+])NCCC[C@H]([NH3+])C([O-])=O', '[NH3+]CC[NH3+].CC(=O)[O-]', '[O-]C(=O)CC([O-])=O.C[NH3+]', '[NH3+]CC([O-])=O.[NH3+]CC([O-])=O.[Cl-]',
-                                     'C[NH2+]CC[NH+](C)CC([O-])=O', '[O-]C(=O)C[NH+](CC([O-])=O)CC([O-])=O', 'OC(=O)CC[NH3+]')]
+                                     'C[NH2+]CC[NH+](C)CC([O-])=O', '[O-]C(=O)C[NH+](CC([O-])=O)CC([O-])=O', 'OC(=O)CC[NH3+]',
+                                     # thio-acid anions of phosphorus with an ammonium partner (added after seed C14-h1)
+                                     'CCOP(=S)([O-])OCC.C[NH3+]', 'CCOP(=S)([S-])OCC.C[NH3+]', 'CP(C)(=S)[O-].[NH4+]', 'CP(C)(=[Se])[S-].C[NH3+]')]
     rows += [('taut-stereo', s) for s in inputs.tautomer_stereo_family()]
     # azoles with an NH donor and two or more acceptor nitrogens in one aromatic system (every spelling = another numbering)
     rows += [('azole', s) for s in ('n1[nH]nc(C)n1', 'Cc1nn[nH]n1', 'Cc1nnn[nH]1', 'c1nc[nH]n1', 'Cc1ncn[nH]1', 'Cc1nc[nH]n1', 'c1ncc2[nH]cnc2n1', 'c1nc2nc[nH]c2cn1', 'Cc1cc[nH]n1', 'c1ccc2[nH]nnc2c1',
-                                    'c1ccc2n[nH]nc2c1', 'Cc1n[nH]c(C)n1', 'OCc1nn[nH]n1', 'c1ccc(cc1)-c1nn[nH]n1', 'Cc1cnc[nH]1', 'Nc1ncnc2[nH]cnc12', 'O=c1[nH]cnc2[nH]cnc12')]
+                                    'c1ccc2n[nH]nc2c1', 'Cc1n[nH]c(C)n1', 'OCc1nn[nH]n1', 'c1ccc(cc1)-c1nn[nH]n1', 'Cc1cnc[nH]1', 'Nc1ncnc2[nH]cnc12', 'O=c1[nH]cnc2[nH]cnc12',
+                                    # NH donor next to N-substituted ring nitrogens in one aromatic system (added after seed C14-h2)
+                                    'Cn1ccc2c1[nH]c1c2ccn1C', 'Cn1ccc2[nH]ccc12')]
     for i, (fam, s) in enumerate(rows):
         if i % nsh != k:
             continue
